@@ -488,10 +488,14 @@ func WriteStriped[S, D SignalTypes](src [][]S, dst *Buffer[D]) (written int) {
 }
 
 // alignCapacity ensures that Buffer capacity is aligned with number of
-// channels.
+// channels. Capacity is never cut below the length: a trailing partial
+// frame keeps the capacity it occupies.
 func alignCapacity(s interface{}, channels, c int) {
 	if channels == 0 {
 		return
 	}
-	reflect.ValueOf(s).Elem().SetCap(c - c%channels)
+	v := reflect.ValueOf(s).Elem()
+	if aligned := c - c%channels; aligned >= v.Len() {
+		v.SetCap(aligned)
+	}
 }
